@@ -7,14 +7,17 @@ MODES = ['-r', '-Q', '-Q->-r', '-ra', '-ra-offsets', '-Qa', 'normal']
 EXTRA_CONFIGS = [
     dict(name='ext4-4k-16m', fstype='ext4', bs=4096, blocks=6144, features=[], extra=['-g', '2048']),          # crosses the 2 MiB qcow2 L2 span several times
     dict(name='ext4-2k-12m', fstype='ext4', bs=2048, blocks=6144, features=['^flex_bg'], extra=['-g', '1024']),
+    # larger than the 512 L2 tables the qcow2 writer caches (1 KiB blocks: one table per 128 KiB), mostly filled by one file: -Qa has to flush and recycle tables
+    dict(name='ext4-1k-96m-bigfile', fstype='ext4', bs=1024, blocks=98304, features=[], extra=[], bigfile=68 << 20),
+    dict(name='ext2-1k-80m-bigfile', fstype='ext2', bs=1024, blocks=81920, features=[], extra=[], bigfile=56 << 20),
     dict(name='ext4-1k-mmp', fstype='ext4', bs=1024, blocks=8193, features=['mmp'], extra=['-E', 'mmp_update_interval=1']),
 ]
 ALLCFG = fsgen.CONFIGS + EXTRA_CONFIGS
 CFG_NAMES = [c['name'] for c in ALLCFG if c['name'] != 'ext4-1k-mmp'] + (['ext4-1k-mmp'] if os.environ.get('VERIF_TIER') == 'thorough' else [])    # every tool run on an MMP filesystem sleeps for seconds: thorough tier only
-RULE = ('Hypothesis draws (configuration out of %d, population recipe, 0-3 extra population ops incl. deep extent trees, big directories, xattr blocks, sparse files; mode out of %s). '
+RULE = ('Hypothesis draws (configuration out of %d incl. two 80-96 MiB filesystems whose all-data qcow2 image needs more L2 tables than the writer caches, population recipe, 0-3 extra population ops incl. deep extent trees, big directories, xattr blocks, sparse files; mode out of %s). '
         '-r: every metadata block enumerated by the independent reader (superblock/descriptor copies, bitmaps, inode tables, extent/indirect blocks, directory blocks, xattr blocks, slow symlinks, journal/quota/orphan/resize inode data, MMP) is byte-identical in the image, '
         'and dumpe2fs / e2fsck -fn print the same on image and source; -Q then -r equals the direct raw image byte for byte; -ra / -Qa: the tree digest (all file bytes) is equal and blocks that differ from the source are owned by no file and no primary metadata; '
-        '-ra with -o/-O offsets: the copy at the destination offset checks clean and has the same digest; in every mode the source keeps its sha256 and the syscall trace shows no write to it. '
+        'every block of a raw (or qcow2-converted) image equals the source block or is zero; -ra with -o/-O offsets: the copy at the destination offset checks clean and has the same digest; in every mode the source keeps its sha256 and the syscall trace shows no write to it. '
         'non-trivial = the filesystem has an extent index block, an indirect block or an htree directory, and an xattr block or slow symlink; distinct by case') % (len(ALLCFG), MODES)
 
 def cfg_by_name(n):
@@ -34,6 +37,8 @@ def template(env, name, recipe):
     if key in env['cache']: return env['cache'][key]
     cfg = cfg_by_name(name); img = os.path.join(env['dir'], 'tpl-%s-%d.img' % key)
     ok, log = fsgen.build_image(env['plain'], img, cfg, hyp.RECIPES[recipe], env['blobs'], random.Random(recipe * 31 + 7))
+    if ok and cfg.get('bigfile'):
+        env['plain'].dbg(img, ['write %s hugefile' % fsgen._blob(env['blobs'], 'c19big-%d' % cfg['bigfile'], cfg['bigfile'], 19)], write=True, cpu=300)
     env['cache'][key] = img if ok else None
     return env['cache'][key]
 
@@ -90,6 +95,19 @@ def body(case, env):
             tags = [(blk, ck.fixed.get(blk) or ck.owners.get(blk) or 'dir/symlink/special data') for blk in bad[:6]]
             return (dict(base, kind='metadata-block-differs', where=where, n=len(bad), first=[(x, str(y)) for x, y in tags]), fp, True, None, classes)
         return None
+    def only_source_bytes(image, where):
+        # an image block holds either the bytes the source has at that place or nothing (zeros / hole): anything else was invented by e2image
+        bad = []; z = bytes(bs)
+        with open(src, 'rb') as fa, open(image, 'rb') as fb:
+            n = 0
+            while True:
+                a = fa.read(bs); b = fb.read(bs)
+                if not b: break
+                if b != a and b != z[:len(b)]: bad.append(n)
+                n += 1
+                if len(bad) > 20: break
+        if bad: return (dict(base, kind='image-holds-bytes-that-are-not-in-the-source', where=where, blocks=bad[:12], owners=[str(ck.fixed.get(x) or ck.owners.get(x) or 'free') for x in bad[:6]]), fp, True, None, classes)
+        return None
     def same_reports(image, where):
         for label, cmd in (('dumpe2fs', [t.dumpe2fs]), ('e2fsck -fn', [t.e2fsck, '-fn'])):
             x = vrun.run(cmd + [src], merge=True, cpu=120); y = vrun.run(cmd + [image], merge=True, cpu=120)
@@ -105,7 +123,7 @@ def body(case, env):
         if r.rc != 0: return fail_rc(r, '-r')
         x = source_untouched('-r')
         if x: return x
-        x = meta_equal(out, 'raw image') or same_reports(out, 'raw image')
+        x = meta_equal(out, 'raw image') or only_source_bytes(out, 'raw image') or same_reports(out, 'raw image')
         if x: return x
         if mode != '-r':
             r = e2image(['-Q', src, qc], traced=traced)
@@ -125,7 +143,7 @@ def body(case, env):
         if r.rc != 0: return fail_rc(r, mode)
         x = source_untouched(mode)
         if x: return x
-        x = meta_equal(out, mode + ' image')
+        x = meta_equal(out, mode + ' image') or only_source_bytes(out, mode + ' image')
         if x: return x
         try: d1, err1 = tool.tree_digest(out)
         except Exception as e: return (dict(base, kind='copy-unreadable', err=repr(e)[:200]), fp, True, None, classes)
